@@ -12,12 +12,14 @@ DECIDED = ["D1 one signed-bytes derivation at all sites", "D2 sign/verify scheme
 UNDECIDED = ["round trip of arbitrary Unicode through serde_json text", "bit-flip / foreign-key negatives (cryptography)"]
 TRUSTED = ["serde_json round-trips strings", "ring"]
 ASSUMPTIONS = []
-FLOORS = {"C09/D1": 6, "C09/D3": 2, "C09/D4": 2, "C04/D6": 9}
+FLOORS = {"C09/D1": 9, "C09/D3": 2, "C09/D4": 2, "C04/D6": 9}
 
 
 def run(ctx):
     canon.to_bytes_is_canonical(ctx, "C09/D1")
     canon.check_derivations(ctx, "C09/D1")
+    # what to_writer emits is the canonicaliser's output: it must stay plain (valid) JSON, i.e. not be post-processed
+    canon.check_public_canonicalize(ctx, "C09/D1")
     canon.check_codec(ctx, "C09/D3")
     S = Schema(ctx.fx)
     for ty in ("crypto::Signature", "models::metadata::Metablock"):
